@@ -66,14 +66,78 @@ class ModelModifier:
         params, quantized_model
     )
 
+    signature_io_positions = self._get_signature_io_positions(quantized_model)
     self._transformation_performer.transform_graph(
         instructions, quantized_model
     )
+    self._update_signature_defs(quantized_model, signature_io_positions)
     constant_buffer_size = self._process_constant_map(quantized_model)
     if constant_buffer_size > 2**31 - 2**20:
       return self._serialize_large_model(quantized_model)
     else:
       return self._serialize_small_model(quantized_model)
+
+  def _get_signature_io_positions(
+      self, model: schema_py_generated.ModelT
+  ) -> list[tuple[list[int], list[int]]]:
+    """Records which subgraph input/output each signature entry refers to.
+
+    Args:
+      model: the model before transformations are applied.
+
+    Returns:
+      For every signature, the positions of its inputs and of its outputs in
+      the subgraph's input and output lists (-1 if not found).
+    """
+    positions = []
+    for signature_def in model.signatureDefs or []:
+      subgraph = model.subgraphs[signature_def.subgraphIndex]
+      subgraph_inputs = list(subgraph.inputs)
+      subgraph_outputs = list(subgraph.outputs)
+      positions.append((
+          [
+              subgraph_inputs.index(tensor_map.tensorIndex)
+              if tensor_map.tensorIndex in subgraph_inputs
+              else -1
+              for tensor_map in signature_def.inputs or []
+          ],
+          [
+              subgraph_outputs.index(tensor_map.tensorIndex)
+              if tensor_map.tensorIndex in subgraph_outputs
+              else -1
+              for tensor_map in signature_def.outputs or []
+          ],
+      ))
+    return positions
+
+  def _update_signature_defs(
+      self,
+      model: schema_py_generated.ModelT,
+      signature_io_positions: list[tuple[list[int], list[int]]],
+  ) -> None:
+    """Makes signature entries follow the rewired subgraph inputs/outputs.
+
+    Inserting a quantize/dequantize op at a graph output replaces the entry in
+    subgraph.outputs; the signature must keep denoting the same graph output.
+
+    Args:
+      model: the model after transformations are applied.
+      signature_io_positions: result of _get_signature_io_positions.
+    """
+    for signature_def, (input_positions, output_positions) in zip(
+        model.signatureDefs or [], signature_io_positions
+    ):
+      subgraph = model.subgraphs[signature_def.subgraphIndex]
+      for tensor_map, position in zip(
+          signature_def.inputs or [], input_positions
+      ):
+        if position >= 0:
+          tensor_map.tensorIndex = subgraph.inputs[position]
+      for tensor_map, position in zip(
+          signature_def.outputs or [], output_positions
+      ):
+        if position >= 0:
+          tensor_map.tensorIndex = subgraph.outputs[position]
 
   def _process_constant_map(
       self, quantized_model: schema_py_generated.ModelT
